@@ -280,6 +280,15 @@ class Report:
     def violation(self, clause, site, cond, detail, replay=None):
         self.violations.append({"clause": clause, "site": site, "cond": cond, "detail": detail, "replay": replay})
 
+    def unknown_violations(self):
+        """Violations not matched by a status=known entry of known_findings.json."""
+        known = [f for f in load_findings() if f.get("property") == self.pid and f.get("status") == "known"]
+        out = []
+        for v in self.violations:
+            if not any(f["clause"] == v["clause"] and f["site"] == v["site"] and re.fullmatch(f["cond"], str(v["cond"])) for f in known):
+                out.append(v)
+        return out
+
     def finish(self, rule, trusted=None, exhaustive=False, extra=None):
         findings = [f for f in load_findings() if f.get("property") == self.pid]
         known = [f for f in findings if f.get("status") == "known"]
